@@ -81,6 +81,55 @@ fn run(a: &[&str]) -> String {
         "pdec_div" => op(pdec(a[1]).checked_div(pdec(a[2]))),
         "dec_round" => od(dec(a[1]).checked_round(a[2].parse::<i32>().unwrap(), mode(a[3]))),
         "pdec_round" => op(pdec(a[1]).checked_round(a[2].parse::<i32>().unwrap(), mode(a[3]))),
+        "pdec_add" => op(pdec(a[1]).checked_add(pdec(a[2]))),
+        "pdec_sub" => op(pdec(a[1]).checked_sub(pdec(a[2]))),
+        "dec_neg" => od(dec(a[1]).checked_neg()),
+        "dec_abs" => od(dec(a[1]).checked_abs()),
+        "pdec_neg" => op(pdec(a[1]).checked_neg()),
+        "pdec_abs" => op(pdec(a[1]).checked_abs()),
+        "pdec_floor" => op(pdec(a[1]).checked_floor()),
+        "pdec_ceiling" => op(pdec(a[1]).checked_ceiling()),
+        "pdec_sqrt" => op(pdec(a[1]).checked_sqrt()),
+        "pdec_cbrt" => op(pdec(a[1]).checked_cbrt()),
+        "pdec_powi" => op(pdec(a[1]).checked_powi(a[2].parse::<i64>().unwrap())),
+        "dec_nth_root" => od(dec(a[1]).checked_nth_root(a[2].parse::<u32>().unwrap())),
+        "pdec_nth_root" => op(pdec(a[1]).checked_nth_root(a[2].parse::<u32>().unwrap())),
+        "dec_from_i64" => format!("val {}", Decimal::from(a[1].parse::<i64>().unwrap()).attos()),
+        "dec_from_u64" => format!("val {}", Decimal::from(a[1].parse::<u64>().unwrap()).attos()),
+        "dec_from_i128" => format!("val {}", Decimal::from(a[1].parse::<i128>().unwrap()).attos()),
+        "dec_from_u128" => format!("val {}", Decimal::from(a[1].parse::<u128>().unwrap()).attos()),
+        "pdec_from_i128" => format!("val {}", PreciseDecimal::from(a[1].parse::<i128>().unwrap()).precise_subunits()),
+        "pdec_from_u128" => format!("val {}", PreciseDecimal::from(a[1].parse::<u128>().unwrap()).precise_subunits()),
+        "dec_to_i64" => match i64::try_from(dec(a[1])) {
+            Ok(v) => format!("ok {}", v),
+            Err(_) => "err".to_string(),
+        },
+        "dec_to_u64" => match u64::try_from(dec(a[1])) {
+            Ok(v) => format!("ok {}", v),
+            Err(_) => "err".to_string(),
+        },
+        "dec_to_i128" => match i128::try_from(dec(a[1])) {
+            Ok(v) => format!("ok {}", v),
+            Err(_) => "err".to_string(),
+        },
+        "dec_to_u8" => match u8::try_from(dec(a[1])) {
+            Ok(v) => format!("ok {}", v),
+            Err(_) => "err".to_string(),
+        },
+        "instant_add" => {
+            let i = Instant::new(a[2].parse().unwrap());
+            let k: i64 = a[3].parse().unwrap();
+            let r = match a[1] {
+                "days" => i.add_days(k),
+                "hours" => i.add_hours(k),
+                "minutes" => i.add_minutes(k),
+                _ => i.add_seconds(k),
+            };
+            match r {
+                Some(x) => format!("some {}", x.seconds_since_unix_epoch),
+                None => "none".to_string(),
+            }
+        }
         "dec_floor" => od(dec(a[1]).checked_floor()),
         "dec_ceiling" => od(dec(a[1]).checked_ceiling()),
         "dec_sqrt" => od(dec(a[1]).checked_sqrt()),
